@@ -994,9 +994,14 @@ class DateTime(datetime.datetime, Date):
         if day_of_week < WeekDay.MONDAY or day_of_week > WeekDay.SUNDAY:
             raise ValueError("Invalid day of week")
 
-        dt = self if keep_time else self.start_of("day")
+        days = (day_of_week - self.day_of_week - 1) % 7 + 1
 
-        return dt.add(days=(day_of_week - dt.day_of_week - 1) % 7 + 1)
+        if keep_time:
+            return self.add(days=days)
+
+        day = self.date().add(days=days)
+
+        return self._boundary(day.year, day.month, day.day)
 
     def previous(
         self, day_of_week: WeekDay | None = None, keep_time: bool = False
@@ -1013,9 +1018,14 @@ class DateTime(datetime.datetime, Date):
         if day_of_week < WeekDay.MONDAY or day_of_week > WeekDay.SUNDAY:
             raise ValueError("Invalid day of week")
 
-        dt = self if keep_time else self.start_of("day")
+        days = (self.day_of_week - day_of_week - 1) % 7 + 1
 
-        return dt.subtract(days=(dt.day_of_week - day_of_week - 1) % 7 + 1)
+        if keep_time:
+            return self.subtract(days=days)
+
+        day = self.date().subtract(days=days)
+
+        return self._boundary(day.year, day.month, day.day)
 
     def first_of(self, unit: str, day_of_week: WeekDay | None = None) -> Self:
         """
@@ -1076,10 +1086,10 @@ class DateTime(datetime.datetime, Date):
         modify to the first day of the month. Use the supplied consts
         to indicate the desired day_of_week, ex. DateTime.MONDAY.
         """
-        dt = self.start_of("day")
+        dt = self
 
         if day_of_week is None:
-            return dt.set(day=1)
+            return dt._boundary(dt.year, dt.month, 1)
 
         month = calendar.monthcalendar(dt.year, dt.month)
 
@@ -1090,7 +1100,7 @@ class DateTime(datetime.datetime, Date):
         else:
             day_of_month = month[1][calendar_day]
 
-        return dt.set(day=day_of_month)
+        return dt._boundary(dt.year, dt.month, day_of_month)
 
     def _last_of_month(self, day_of_week: WeekDay | None = None) -> Self:
         """
@@ -1099,10 +1109,10 @@ class DateTime(datetime.datetime, Date):
         modify to the last day of the month. Use the supplied consts
         to indicate the desired day_of_week, ex. DateTime.MONDAY.
         """
-        dt = self.start_of("day")
+        dt = self
 
         if day_of_week is None:
-            return dt.set(day=self.days_in_month)
+            return dt._boundary(dt.year, dt.month, self.days_in_month)
 
         month = calendar.monthcalendar(dt.year, dt.month)
 
@@ -1113,7 +1123,7 @@ class DateTime(datetime.datetime, Date):
         else:
             day_of_month = month[-2][calendar_day]
 
-        return dt.set(day=day_of_month)
+        return dt._boundary(dt.year, dt.month, day_of_month)
 
     def _nth_of_month(
         self, nth: int, day_of_week: WeekDay | None = None
@@ -1134,7 +1144,7 @@ class DateTime(datetime.datetime, Date):
             dt = dt.next(day_of_week)
 
         if dt.format("%Y-%M") == check:
-            return self.set(day=dt.day).start_of("day")
+            return self._boundary(self.year, self.month, dt.day)
 
         return None
 
@@ -1145,7 +1155,7 @@ class DateTime(datetime.datetime, Date):
         modify to the first day of the quarter. Use the supplied consts
         to indicate the desired day_of_week, ex. DateTime.MONDAY.
         """
-        return self.on(self.year, self.quarter * 3 - 2, 1).first_of(
+        return self._boundary(self.year, self.quarter * 3 - 2, 1).first_of(
             "month", day_of_week
         )
 
@@ -1156,7 +1166,9 @@ class DateTime(datetime.datetime, Date):
         modify to the last day of the quarter. Use the supplied consts
         to indicate the desired day_of_week, ex. DateTime.MONDAY.
         """
-        return self.on(self.year, self.quarter * 3, 1).last_of("month", day_of_week)
+        return self._boundary(self.year, self.quarter * 3, 1).last_of(
+            "month", day_of_week
+        )
 
     def _nth_of_quarter(
         self, nth: int, day_of_week: WeekDay | None = None
@@ -1171,7 +1183,7 @@ class DateTime(datetime.datetime, Date):
         if nth == 1:
             return self.first_of("quarter", day_of_week)
 
-        dt = self.set(day=1, month=self.quarter * 3)
+        dt = self._boundary(self.year, self.quarter * 3, 1)
         last_month = dt.month
         year = dt.year
         dt = dt.first_of("quarter")
@@ -1181,7 +1193,7 @@ class DateTime(datetime.datetime, Date):
         if last_month < dt.month or year != dt.year:
             return None
 
-        return self.on(self.year, dt.month, dt.day).start_of("day")
+        return self._boundary(self.year, dt.month, dt.day)
 
     def _first_of_year(self, day_of_week: WeekDay | None = None) -> Self:
         """
@@ -1190,7 +1202,7 @@ class DateTime(datetime.datetime, Date):
         modify to the first day of the year. Use the supplied consts
         to indicate the desired day_of_week, ex. DateTime.MONDAY.
         """
-        return self.set(month=1).first_of("month", day_of_week)
+        return self._boundary(self.year, 1, 1).first_of("month", day_of_week)
 
     def _last_of_year(self, day_of_week: WeekDay | None = None) -> Self:
         """
@@ -1199,7 +1211,9 @@ class DateTime(datetime.datetime, Date):
         modify to the last day of the year. Use the supplied consts
         to indicate the desired day_of_week, ex. DateTime.MONDAY.
         """
-        return self.set(month=MONTHS_PER_YEAR).last_of("month", day_of_week)
+        return self._boundary(self.year, MONTHS_PER_YEAR, 1).last_of(
+            "month", day_of_week
+        )
 
     def _nth_of_year(self, nth: int, day_of_week: WeekDay | None = None) -> Self | None:
         """
@@ -1220,7 +1234,7 @@ class DateTime(datetime.datetime, Date):
         if year != dt.year:
             return None
 
-        return self.on(self.year, dt.month, dt.day).start_of("day")
+        return self._boundary(self.year, dt.month, dt.day)
 
     def average(  # type: ignore[override]
         self, dt: datetime.datetime | None = None
